@@ -133,9 +133,14 @@ def run(pid='C15'):
     if pid == 'C16': rep.assumptions.append('composition with the documented encoder (expected_encode), which C13 shows equivalent to the real assembler::encode for every table entry; the combine grammar is the documented-grammar assumption')
     rep.bounds = dict(opcodes=len(spec.SUPPORTED), registers='all nibbles', offsets='all 16-bit', immediates='all 32-bit (64-bit for lddw)', index='symbolic, any program length')
     if pid == 'C16':
+        # the composition takes the encoder model from C13; its equivalence with the real assembler::encode / insn (operand ranges included) is re-established here
+        # so that C16 does not silently rest on another check's run
+        import props.c13 as c13
+        table = {n: (k, o) for n, k, o in Driver.get('dev').request(dict(op='asm_table')).get('table', [])}
+        c13.encode_part(rep, cands, table, 20000 if common.tier() == 'quick' else 120000, props=('C16',))
         native_sequences(rep, cands)
         rep.assumptions.append('bounded native complement for the grammar layer: every ordered pair of expressible opcodes printed on consecutive lines re-assembles to the same bytes')
-    return rep.finish(cands, replay_dis)
+    return rep.finish(cands, lambda c: __import__('props.c13', fromlist=['x']).replay_asm(c) if c['role'].startswith('asm') else replay_dis(c))
 
 
 def native_sequences(rep, cands):
